@@ -540,6 +540,14 @@ class AFS:
             def absolute(self):
                 return Path(posixpath.join(fs.cwd, str(self)))
 
+            def expanduser(self):
+                t = str(self)
+                if t == "~" or t.startswith("~/"):
+                    return Path(fs.home + t[1:])
+                if t.startswith("~"):
+                    raise Unsupported("Path.expanduser for another user's home")
+                return self
+
             def open(self, mode="r", *a, **k):
                 return fs.open(str(self), mode)
 
